@@ -216,6 +216,46 @@ def build_and_check(acc, fn, n, m, be, hkind, square=False, values='all', gen_mo
     acc.outcome('mul', (fn, n, m, be, hkind if isinstance(hkind, str) else 'gen', len(net.gates)))
 
 
+def reuse_check(acc, fn, n, m, be):
+    """The caller keeps its operand lists and uses them for two multipliers in the same host (and, for
+    n == m, passes the same list object as both operands): both results must be exact, the lists untouched."""
+    import cirbo.synthesis.generation.arithmetics as A
+    from vmc import boot
+
+    boot.uuid_counter.reset()
+    case = {'fn': fn, 'n': n, 'm': m, 'big_endian': be, 'scenario': 'operand lists reused for a second call'}
+    feats = {'fn': fn, 'scenario': 'reuse'}
+    acc.states += 1
+    acc.traces += 1
+    acc.transitions += 2
+    c, ops = arith.host('H1', n + m)
+    a, b = list(ops[:n]), list(ops[n:])
+    a0, b0 = list(a), list(b)
+    f = getattr(A, fn)
+    try:
+        r1 = f(c, a, b, big_endian=be)
+        r2 = f(c, a, b, big_endian=be)
+        r3 = f(c, a, a, big_endian=be)
+    except Exception as e:  # noqa: BLE001
+        acc.violation(f'{fn}/raises-{type(e).__name__}', case, repr(e)[:300], feats)
+        return
+    if a != a0 or b != b0:
+        acc.violation(f'{fn}/modifies-the-operand-lists-it-was-given', case, f'{a} {b}', feats)
+    net = refmodel.abstract(c)
+    ev = Evaluator(net)
+    nin = len(net.inputs)
+    iv = refmodel.input_vectors_cached(nin)
+    mask = (1 << (1 << nin)) - 1
+    vals = dict(zip(net.inputs, iv))
+    for tag, res, x, y in (('first', r1, a0, b0), ('second', r2, a0, b0), ('square', r3, a0, a0)):
+        want_len = len(x) + len(y) - 1 if (len(x) == 1 or len(y) == 1) else len(x) + len(y)
+        if len(res) != want_len:
+            acc.violation(f'{fn}/result-width', {**case, 'call': tag}, f'{len(res)} bits, expected {want_len}', feats)
+            return
+        if not product_check(acc, fn, {**case, 'call': tag}, feats, net, ev, x, y, res, vals, mask, be):
+            return
+
+
 def alphabet_positions(n, m=None):
     """10 free bit positions per operand around the split points (LSB side, middle, MSB side)."""
     def pick(w, off):
@@ -252,6 +292,10 @@ def plan(tier):
         for fn in ('add_mul_karatsuba_with_efficient_sum', 'add_mul_karatsuba'):
             for be in (False, True):
                 t.append({'kind': 'full', 'n': n, 'm': m, 'fn': fn, 'be': be})
+    wide = [(25, 25), (33, 26), (31, 31), (24, 40)] if q else [(25, 25), (26, 27), (33, 26), (31, 31), (32, 32), (24, 40), (40, 24), (48, 48)]
+    for n, m in wide:
+        for fn in ('add_mul_pow2_m1', 'add_mul', 'add_mul_dadda', 'add_mul_wallace', 'add_mul_alter'):
+            t.append({'kind': 'full', 'n': n, 'm': m, 'fn': fn, 'be': (n + m) % 2 == 1})
     sq = [47, 48, 49, 50, 53, 54] if q else [47, 48, 49, 50, 51, 52, 53, 54, 55, 60, 64, 72, 96, 97, 98, 106]
     for n in sq:
         for be in (False, True):
@@ -268,8 +312,8 @@ def describe(tier):
     return {
         'rule': 'small: every width pair (n,m), n+m<=W x 7 multiplier entry points (add_mul, Karatsuba with efficient sum, alter, Dadda, '
         'Wallace, 2^k-1, plain Karatsuba) x endianness x hosts (H0 inputs, H1 non-input operands) + generate_mul for the 6 modes, ALL '
-        'operand values; square: add_square/add_square_pow2_m1/generate_square likewise; rec: Karatsuba-recursion widths x short '
-        'second operand, ALL operand values (2^(n+m) rows in slices of 2^18); full/fullsq: recursion inside recursion and the squarer '
+        'operand values; for n+m<=7 also two calls reusing the same operand list objects and one with the same list as both operands; square: add_square/add_square_pow2_m1/generate_square likewise; rec: Karatsuba-recursion widths x short '
+        'second operand, ALL operand values (2^(n+m) rows in slices of 2^18); full/fullsq: recursion inside recursion, the squarer split, and the other five entry points at widths 24..40 (column heights >= 25) '
         'split over a STATED operand alphabet: 10 free bit positions per operand (20 for squares) around bit 0, the split point and '
         'the top, every other bit fixed by each of 3 backgrounds (all 0, all 1, alternating) -> 9 x 2^20 operand pairs per width '
         '(3 x 2^20 per square width); folded: operands driven by a 16-input host. Oracle: bit-sliced schoolbook product. '
@@ -293,6 +337,21 @@ def probe():
 def run_task(task, acc):
     selfcheck_reference()
     k = task['kind']
+    if k == 'small' and (task['n'], task['m']) == (2, 3):
+        import cirbo.synthesis.generation.arithmetics as A
+
+        for mode in MODES:
+            acc.states += 1
+            acc.traces += 1
+            arith.fresh_generator_check(acc, f'generate_mul({mode})', lambda mode=mode: A.generate_mul(2, 3, type=getattr(A.MulMode, mode)))
+        for mode in ('DEFAULT', 'POW2_M1'):
+            acc.states += 1
+            acc.traces += 1
+            arith.fresh_generator_check(acc, f'generate_square({mode})', lambda mode=mode: A.generate_square(3, type=getattr(A.SquareMode, mode)))
+    if k == 'small' and task['n'] + task['m'] <= 7:
+        for fn in MUL_FNS:
+            for be in (False, True):
+                reuse_check(acc, fn, task['n'], task['m'], be)
     if k == 'small':
         n, m = task['n'], task['m']
         for fn in MUL_FNS:
